@@ -763,7 +763,14 @@ func ruleR3_3(w *World, r *Report) {
 	have, bad = false, nil
 	for _, rw := range rows {
 		under := r33has(rw.guards, "nocost", true)
-		okRow := r33is(rw.vals["Status"], satS) && r33is(rw.vals["Weight"], "0")
+		// (a Weight left at the zero value of the result is the weight 0)
+		wz := len(rw.vals["Weight"]) > 0
+		for _, v := range rw.vals["Weight"] {
+			if v != "0" && v != "zero" {
+				wz = false
+			}
+		}
+		okRow := r33is(rw.vals["Status"], satS) && wz
 		switch {
 		case under && r33exactly(rw.guards, map[string]bool{"unsat": false, "nocost": true}) && okRow:
 			have = true
